@@ -561,7 +561,11 @@ func (env *SpecEnv) bin(e *SExpr) (SpecVal, error) {
 		}
 	case "/":
 		g = a.Go
-		t = "(go_div " + at + " " + bt + ")"
+		if isF {
+			t = "(fp.div RNE " + at + " " + bt + ")"
+		} else {
+			t = "(go_div " + at + " " + bt + ")"
+		}
 	case "%":
 		g = a.Go
 		t = "(go_rem " + at + " " + bt + ")"
